@@ -161,14 +161,21 @@ def run(repo, rep):
         if flds.get('@calling_ae_title') != rq + '.calling_ae_title':
             p5.append('calling AE title of the reply is %s' % flds.get('@calling_ae_title'))
         items = flds.get('@variable_items', '')
-        if not items.startswith('[%s.variable_items[0]]' % rq) and items != '[%s.variable_items[0]]' % rq:
-            p5.append('reply items start with %s, not the request\'s application context item' % items)
-        apps = [e for e in s.trail if e.kind == 'list.append' and e.callee.startswith('[%s.variable_items[0]]' % rq) or
-                (e.kind == 'list.append' and e.callee == 'rsp.append')]
-        last_apps = [e for e in s.trail if e.kind == 'list.append']
-        if not last_apps or last_apps[-1].args[0] != '%s.variable_items[-1]' % rq:
-            p5.append('the user information item of the request is not appended last (last append: %s)'
-                      % (last_apps[-1].args[0] if last_apps else None))
+        try:
+            le = ast.parse(items, mode='eval').body
+        except SyntaxError:
+            le = None
+        if not isinstance(le, ast.List) or not le.elts:
+            p5.append('reply items are %s, not a list starting with the request\'s application context item' % items[:120])
+            continue
+        if ast.unparse(le.elts[0]) != '%s.variable_items[0]' % rq:
+            p5.append('reply items start with %s, not the request\'s application context item' % ast.unparse(le.elts[0]))
+        if ast.unparse(le.elts[-1]) != '%s.variable_items[-1]' % rq:
+            p5.append('the user information item of the request is not appended last (last item: %s)' % ast.unparse(le.elts[-1]))
+        for mid in le.elts[1:-1]:
+            txt = ast.unparse(mid)
+            if 'NEW_PresentationContextItemAC_' not in txt:
+                p5.append('between application context and user information the reply carries %s' % txt[:80])
     rep.check(not p5, 'C09.N5', kf + 'reply-header', f.loc(), 'AE titles and application context repeated; user information last', '; '.join(sorted(set(p5))))
     # _loop
     lf = acc.find_method('_loop')
